@@ -64,7 +64,8 @@ Conds == << << <<"is_good", "==", 2>> >>,
             << <<"m1", "<=", 21>>, <<"duration", "==", 8>> >>,
             << <<"chain_position", "==", 0>> >>,
             << <<"duration", "==+", 8>> >>,
-            << <<"duration", "!=+", 8>>, <<"start_sample", "<=+", 16>>, <<"start_sample", ">+", 0>> >> >>
+            << <<"duration", "!=+", 8>>, <<"start_sample", "<=+", 16>>, <<"start_sample", ">+", 0>> >>,
+            << <<"start_sample", "!=", 8>> >> >>       \* all cycles but the one starting at sample 4 (family 1: two chains, the second of two cycles)
 Cmp(op, a2, l2) == CASE op = "==" -> a2 = l2 [] op = "!=" -> a2 # l2 [] op = "<" -> a2 < l2
                      [] op = "<=" -> a2 <= l2 [] op = ">" -> a2 > l2 [] op = ">=" -> a2 >= l2
                      [] op = "==+" -> FALSE [] op = "!=+" -> TRUE [] op = "<=+" -> a2 <= l2 [] op = ">+" -> a2 > l2
@@ -140,7 +141,7 @@ FullNext == \/ \E n \in {"m1", "m2"} : \E v \in {"idx", "val"} : \E f \in {"sum"
         \/ \E j \in 1..Len(Conds) : PickSubset(j) \/ Export("conds", j)
         \/ Export("all", 0) \/ Export("subset", 0)
 Focus2Next == \/ ComputeChainTimings
-              \/ \E j \in {2, 4} : PickSubset(j)
+              \/ \E j \in {2, 4, 15} : PickSubset(j)
               \/ Export("conds", 12)
 Next == CASE Focus = 1 -> FocusNext [] Focus = 2 -> Focus2Next [] OTHER -> FullNext
 Spec == Init /\ [][Next]_vars
@@ -157,6 +158,8 @@ ChainsAreMaximalRuns == (Len(hist) > 0 /\ hist[Len(hist)][1] = "pick") =>
     LET sel == Matching(Conds[picked]) IN
     \A c1 \in 1..(K - 1) : (sel[c1] /\ sel[c1 + 1]) <=> (sel[c1] /\ sel[c1 + 1] /\ metrics["chain_ind"][c1] = metrics["chain_ind"][c1 + 1])
 W_TwoChains == ~(picked # 0 /\ Len(chain) > 0 /\ chain[Len(chain)] >= 1)
+\* a second chain with more than one cycle, after chain timings (positions within a later chain)
+W_LongSecondChain == ~(\E c1 \in 1..K : metrics["chain_position"] # Unset /\ metrics["chain_position"][c1] >= 1 /\ metrics["chain_ind"] # Unset /\ metrics["chain_ind"][c1] >= 1)
 W_EmptySelection == ~(picked # 0 /\ \A c1 \in 1..K : subset[c1] = -1)
 Json == INSTANCE Json
 Export_ == PrintT(<<"BEHAVIOUR", Json!ToJson([hist |-> hist, metrics |-> [i \in 1..Len(Names) |-> metrics[Names[i]]],
